@@ -56,7 +56,8 @@ def _of_kind(classes: T.Iterable[str], kind: str | None) -> set[str]:
     return {c for c in classes if (c == CANCELLED) == (kind == "Cancelled")}
 
 
-def escapes_without(cfg: CFG, n: Node, is_recovery: T.Callable[[Node], bool], kind: str | None = None) -> bool:
+def escapes_without(cfg: CFG, n: Node, is_recovery: T.Callable[[Node], bool], kind: str | None = None,
+                    feasible: T.Callable[[Edge], bool] | None = None) -> bool:
     """Can an exception of the given kind raised at n propagate to the function's exceptional exit
     without passing a node satisfying is_recovery?  The propagation of *this* exception is followed:
     handler bodies along their normal edges; raise / re-raise / with-exit nodes pass it on along the
@@ -86,7 +87,7 @@ def escapes_without(cfg: CFG, n: Node, is_recovery: T.Callable[[Node], bool], ki
                     todo.append((e.dst, frozenset(set(e.classes) & now)))
         else:
             for e in m.succ:
-                if e.kind != "exc":
+                if e.kind != "exc" and (feasible is None or feasible(e)):
                     todo.append((e.dst, carried))
     return False
 
